@@ -197,6 +197,10 @@ class Interp:
                 for s2, r in self.eval(e.right, env, s1, func, depth):
                     if isinstance(l, (Arr, Pt)) or isinstance(r, (Arr, Pt)):
                         out.append((s2, join(l, r)))
+                    elif isinstance(l, Sym) or isinstance(r, Sym):
+                        lt = l.text if isinstance(l, Sym) else repr(l)
+                        rt = r.text if isinstance(r, Sym) else repr(r)
+                        out.append((s2, Sym(f"({lt} {type(e.op).__name__} {rt})")))
                     else:
                         out.append((s2, TOP))
             return out
@@ -271,6 +275,11 @@ class Interp:
                         out.append((s2, val))
                     except Exception:  # noqa: BLE001
                         out.append((s2, TOP))
+                elif isinstance(l, Sym) or isinstance(r, Sym):
+                    lt = l.text if isinstance(l, Sym) else repr(l)
+                    rt = r.text if isinstance(r, Sym) else repr(r)
+                    for s3, b in self.atom(f"{lt} {type(op).__name__} {rt}", s2):
+                        out.append((s3, b))
                 else:
                     out.append((s2, TOP))
         return out
